@@ -20,6 +20,9 @@ theorem all_bounds_sufficient : ∀ i ∈ markerImpls, boundsSufficient i = true
 theorem exclusive_needs_exclusive_borrow :
     ∀ s ∈ methods, s.exclOut = true → s.recv = .refMut ∨ (s.recv = .value ∧ s.ty = .refMutRawLRU) := by decide +kernel
 
+/-- an iterator that hands out `&mut V` is never `Clone`: a copy would yield a second `&mut` to every value -/
+theorem mutable_iterators_not_clone : ∀ p ∈ clonedIters, p.2 = Kind.sharedIter := by decide +kernel
+
 /-- a lifetime parameter declared on the function itself is never tied (the pre-repair `peek_lru_mut<'a>`) -/
 theorem fnParam_untied (s : Sig) (h : Origin.fnParam ∈ s.outs) : tied s = false := by
   unfold tied
